@@ -17,6 +17,7 @@ def main():
     a = ap.parse_args()
     tier = a.tier or common.env_tier()
     pid = a.pid.upper()
+    common.setup_python_env()   # cheetah from VERIF_REPO (default /repo), before any harness module imports it
     try:
         mod = importlib.import_module("props." + pid.lower())
     except ModuleNotFoundError as ex:
